@@ -32,6 +32,15 @@ fn block_on<F: std::future::Future>(f: F) -> F::Output {
     let mut f = Box::pin(f);
     loop { if let Poll::Ready(v) = f.as_mut().poll(&mut Context::from_waker(&w)) { return v; } }
 }
+thread_local! { static LOG: std::cell::RefCell<Vec<&'static str>> = std::cell::RefCell::new(Vec::new()); }
+/// records WHEN an expression is evaluated: the order in which the tags are logged is the order of evaluation
+fn ev<T>(tag: &'static str, v: T) -> T { LOG.with(|l| l.borrow_mut().push(tag)); v }
+impl H { fn step(&self, tag: &'static str) -> i32 { ev(tag, self.v) } }
+fn ordered<F: FnOnce() + std::panic::UnwindSafe>(id: &str, f: F) {
+    LOG.with(|l| l.borrow_mut().clear());
+    let r = std::panic::catch_unwind(f);
+    println!("ord {} {} {}", id, if r.is_ok() { "pass" } else { "fail" }, LOG.with(|l| l.borrow().join(",")));
+}
 #[derive(Debug, Clone)] struct W { h: H, c: CD, n: i32, xs: Vec<CD>, oc: Option<CD>, m: BTreeMap<String, i32>, s: String }
 #[derive(Debug, Clone)] struct P2 { a: i32, b: i32 }
 const HI5: i32 = 5;
@@ -123,6 +132,29 @@ REPEAT_CASES = [
     ("W { s: =~ op(\"^he\"), s: =~ op(\"^he\"), .. }", False),
 ]
 
+# WHEN the expressions written in one pattern are evaluated: each exactly once and in the order in which they are written (a chain
+# before the pattern it is followed by) - with a stateful receiver (a cursor's next(), a queue's pop, a clock) the order decides
+# which value each pattern tests, so a reordering changes "the value that was tested" while every counter still reads 1.
+# Tags are logged by ev(tag, value) / H::step(tag); the expected log is the tags in the order they occur in the pattern text.
+# (value expression, pattern, intended verdict)
+ORDER_CASES = [
+    ("w()", "W { h.step(\"t1\"): 5, n: == ev(\"t2\", 5), h.step(\"t3\"): > 3, .. }", "pass"),
+    ("w()", "W { h.step(\"t1\"): 5, c: > ev(\"t2\", 3), h.step(\"t3\"): 5, c: < ev(\"t4\", 9), h.step(\"t5\"): 1..=9, .. }", "pass"),
+    ("w()", "_ { h.step(\"t1\"): 5, n: == ev(\"t2\", 5), h.step(\"t3\"): 5, .. }", "pass"),
+    ("w()", "W { h: H { v: == ev(\"t1\", 5) }, n: == ev(\"t2\", 5), h.step(\"t3\"): 5, h: H { v: <= ev(\"t4\", 5) }, .. }", "pass"),
+    ("w()", "W { n: == ev(\"t1\", 5), s: =~ ev(\"t2\", \"^he\"), n: >= ev(\"t3\", 5), s.len(): == ev(\"t4\", 5), .. }", "pass"),
+    ("w()", "W { xs[ev(\"t1\", 0)]: == ev(\"t2\", 1), n: == ev(\"t3\", 5), xs[ev(\"t4\", 1)]: == ev(\"t5\", 2), .. }", "pass"),
+    ("w()", "W { xs: [== ev(\"t1\", 1), == ev(\"t2\", 2)], n: == ev(\"t3\", 5), xs: [.., < ev(\"t4\", 3)], .. }", "pass"),
+    ("w()", "W { h.add(ev(\"t1\", 1)): 6, oc: Some(== ev(\"t2\", 5)), h.add(ev(\"t3\", 2)): == ev(\"t4\", 7), oc: Some(> ev(\"t5\", 1)), .. }", "pass"),
+    ("(1, 2, 3)", "(== ev(\"t1\", 1), == ev(\"t2\", 2), == ev(\"t3\", 3))", "pass"),
+    ("(w(), w())", "(W { h.step(\"t1\"): 5, .. }, W { n: == ev(\"t2\", 5), h.step(\"t3\"): 5, .. })", "pass"),
+    ("Some(w())", "Some(W { h.step(\"t1\"): 5, n: == ev(\"t2\", 5), h.step(\"t3\"): 5, .. })", "pass"),
+    ("P2 { a: 1, b: 2 }", "P2 { a: == ev(\"t1\", 1), b: == ev(\"t2\", 2), a: >= ev(\"t3\", 1), b: <= ev(\"t4\", 2) }", "pass"),
+    # an operand that fails is still evaluated once and in its place (operands are not re-evaluated for the message)
+    ("w()", "W { h.step(\"t1\"): 5, n: == ev(\"t2\", 6), h.step(\"t3\"): 5, .. }", "fail"),
+    ("P2 { a: 1, b: 2 }", "P2 { a: == ev(\"t1\", 1), b: == ev(\"t2\", 3), a: > ev(\"t3\", 1), b: <= ev(\"t4\", 2) }", "fail"),
+]
+
 NO_MODEL = {"range_const_hi": "range", "range_assoc_const": "range"}
 
 # patterns that assert nothing, at the root and after a chain: (id, body, which counter, expected count by the property)
@@ -194,14 +226,21 @@ def run(res):
         call = "assert_struct!(v, %s);" % pat
         rep_cases.append({"id": "rep_%d" % len(rep_cases), "pattern": pat, "outcome": "pass",
                           "body": "let v = w(); " + ("block_on(async { %s });" % call if is_async else call)})
+    ord_cases = [{"id": "ord_%d" % i, "value": v, "pattern": p_, "outcome": o_, "body": "let v = %s; assert_struct!(v, %s);" % (v, p_)}
+                 for i, (v, p_, o_) in enumerate(ORDER_CASES)]
     src = (e2e.PRELUDE + DECLS + "fn main() { std::panic::set_hook(Box::new(|_| {}));\n" +
-           "\n".join("    counted(\"%s\", || { %s });" % (c["id"], c["body"]) for c in cases + oper_cases + rep_cases + zero_cases) + "\n}\n")
+           "\n".join("    counted(\"%s\", || { %s });" % (c["id"], c["body"]) for c in cases + oper_cases + rep_cases + zero_cases) + "\n" +
+           "\n".join("    ordered(\"%s\", || { %s });" % (c["id"], c["body"]) for c in ord_cases) + "\n}\n")
     out = e2e.compile_many([src], run=True, tag="c08")
     e2e.cleanup("c08")
     if not out[0]["compiled"]:
         raise vlib.CheckError("the counter program does not compile: " + out[0]["stderr"][-2500:])
     real = {}
+    real_ord = {}
     for l in out[0].get("stdout", "").splitlines():
+        if l.startswith("ord "):
+            f = l.split(" ")
+            real_ord[f[1]] = (f[2], [t for t in (f[3] if len(f) > 3 else "").split(",") if t])
         if l.startswith("cnt "):
             f = l.split(" ")
             real[f[1]] = {"verdict": f[2], **{k: int(v) for k, v in (x.split("=") for x in f[3:])}}
@@ -306,6 +345,22 @@ def run(res):
             if rep_bad <= 3:
                 res.violation("failing-input", "`%s` writes the counting method %d time(s) and op(..) %d time(s); on the passing path they are "
                               "evaluated %d and %d time(s)" % (c["pattern"], w_meth, w_oper, r["meth"], r["oper"]), {"program_body": c["body"], "real": r})
+    # evaluation order: the log of every ordered case is the tags in the order they are written
+    import re as _re
+    ord_bad = 0
+    for c in ord_cases:
+        r = real_ord.get(c["id"])
+        if r is None or r[0] != c["outcome"]:
+            raise vlib.CheckError("evaluation-order case `%s`: %r (intended %s)" % (c["pattern"], r, c["outcome"]))
+        written = _re.findall(r'"(t\d+)"', c["pattern"])
+        if r[1] != written:
+            ord_bad += 1
+            failing += 1
+            if ord_bad <= 3:
+                res.violation("failing-input", "`assert_struct!(%s, %s)` writes its chains and operands in the order %s; they are evaluated in the order %s "
+                              "(with a stateful receiver each pattern then tests another value than the one written before it)"
+                              % (c["value"], c["pattern"], " ".join(written), " ".join(r[1])), {"program_body": c["body"], "evaluated": r[1], "written": written})
+    res.streams["evaluation-order"] = {"cases": len(ord_cases), "failures": ord_bad, "failing_path_cases": sum(1 for c in ord_cases if c["outcome"] == "fail")}
     # patterns that assert nothing: what they are applied to must still be evaluated once (recorded finding when it is 0 times)
     zero_bad = 0
     for c in zero_cases:
@@ -380,7 +435,7 @@ def run(res):
 def replay(res, path):
     v = json.load(open(path))
     body = v.get("program_body") or v.get("first_disagreement", {}).get("program_body")
-    src = e2e.PRELUDE + DECLS + "fn main() { std::panic::set_hook(Box::new(|_| {})); counted(\"r\", || { %s }); }\n" % body
+    src = e2e.PRELUDE + DECLS + "fn main() { std::panic::set_hook(Box::new(|_| {})); counted(\"r\", || { %s }); ordered(\"r\", || { %s }); }\n" % (body, body)
     out = e2e.compile_many([src], run=True, tag="c08r")
     e2e.cleanup("c08r")
     print(out[0].get("stdout", out[0]["stderr"][-500:]))
